@@ -80,10 +80,10 @@ class Tukey(DFunction):
         L = x.length
         
         if sym:
-            data = signal.tukey(L, r, sym=sym)
+            data = signal.windows.tukey(L, r, sym=sym)
             
         else:
-            data = signal.tukey(2*L, r*2, sym=sym)
+            data = signal.windows.tukey(2*L, r*2, sym=sym)
             data = data[L:]
             
         ii = 0
